@@ -46,7 +46,7 @@ class C10(PropBase):
     def init_op(self, rng):
         role = "s" if rng.random() < 0.8 else "c"
         return {"op": "init", "sessions": [{"name": "x", "role": role}], "observe_pending": True,
-                "lazy_drain": rng.random() < 0.7, "big": rng.choice([0.03, 0.15]), "bad_text": rng.choice([0.0, 0.0, 0.04])}
+                "lazy_drain": rng.random() < 0.7, "big": rng.choice([0.03, 0.15]), "bad_text": rng.choice([0.0, 0.0, 0.04]), "style": policy.wire_style(rng)}
 
     def make(self, init):
         st = St(World(init))
